@@ -602,6 +602,10 @@ class VSample:
     pass
 
 
+def cfg_rng(chk, cfg):
+    return random.Random("%d:%s" % (chk.seed, cfg["name"]))
+
+
 def drive_v(chk, cfg, rng):
     """build the solver, evaluate at grid vectors, record jobs."""
     from tangelo.toolboxes.operators import count_qubits
@@ -762,12 +766,12 @@ def narrow_reference_probe(chk):
         chk.add_traces(1, "V_narrow_reference")
 
 
-def part_v(chk, rng):
-    cfgs = v_configs(chk.quick)
+def part_v(chk, rng, only=None):
+    cfgs = v_configs(chk.quick) if only is None else only
     samples = []
     for cfg in cfgs:
-        samples += drive_v(chk, cfg, rng)
-    ctl = v_controls(samples)
+        samples += drive_v(chk, cfg, cfg_rng(chk, cfg))
+    ctl = v_controls(samples) if only is None else []
     jobs = [v.job for v in samples] + [j for _, _, j, _ in ctl]
     verd, recs = run_judge(chk, jobs, "v")
     tail = {"states": 0, "ensembles": 0}
@@ -787,6 +791,8 @@ def part_v(chk, rng):
             cres[nm] = rec is not None and (not close(se, v.se) or (nm == "swapped-references" and not close(se, v.se)))
         else:
             cres[nm] = verd[x] == want
+    if only is not None:
+        return
     if not ctl or not all(cres.values()):
         raise tlc.TLCError("negative control not rejected: %s" % cres)
     guards = {"k>=2": sum(len(c["refs"]) >= 2 for c in cfgs), "unequal_weights": sum(len(set(c["weights"])) > 1 for c in cfgs),
@@ -847,11 +853,12 @@ def drive_oo(chk, cfg, rng):
         C = np.array(mol.mo_coeff).copy()
         # numeric tail: state-averaged energy along the rotation path C u^t (same RDMs): slope at t = 0 and full step
         L = np.real(logm(np.array(u)))
-        e0 = float(np.real(o_efr()))
         mol.mo_coeff = C @ expm(1e-3 * L)
         e1 = float(np.real(o_efr()))
+        mol.mo_coeff = C @ expm(-1e-3 * L)
+        e0 = float(np.real(o_efr()))
         mol.mo_coeff = C
-        ev.append({"ev": "u", "u": np.array(u).copy(), "C": C, "slope": (e1 - e0) / 1e-3, "e0": e0, "step": float(np.max(np.abs(L)))})
+        ev.append({"ev": "u", "u": np.array(u).copy(), "C": C, "slope": (e1 - e0) / 2e-3, "step": float(np.max(np.abs(L)))})
         return u
 
     def build():
@@ -907,16 +914,15 @@ def judge_oo(chk, run_, tail):
     cyc, cur = [], None
     for e in ev:
         if e["ev"] == "efr":
-            if cur is None:
+            if cur is None or cur["efr2"] is not None:
                 cur = {"efr1": e, "us": [], "efr2": None, "built": False}
                 cyc.append(cur)
             else:
                 cur["efr2"] = e
         elif e["ev"] == "u":
             cur["us"].append(e)
-        elif e["ev"] == "build":
+        elif e["ev"] == "build" and cur is not None:
             cur["built"] = True
-            cur = None
     if len(s.energies) != len(cyc) or len(s.vqe_energies) != len(cyc):
         chk.violation("iterate:bookkeeping:lengths", "%s: %d cycles recorded, %d energies, %d vqe_energies" % (name, len(cyc), len(s.energies), len(s.vqe_energies)), case)
         return
@@ -954,7 +960,7 @@ def judge_oo(chk, run_, tail):
                 # the documented purpose of the step ("reduces the state averaged energy"): -H^-1 g with a positive definite H is a
                 # descent direction, so the energy must not increase along the first piece of the rotation path
                 tail["descent_checks"] += 1
-                if u["slope"] > 1e-7:
+                if u["slope"] > 1e-6:
                     chk.violation("numeric-tail:oo-step-not-a-descent-direction", "%s: d/dt E(C u^t) at t=0 is %+.3e (the orbital step increases the "
                                   "state-averaged energy)" % (where, u["slope"]), case)
                 if np.max(np.abs(u["C"] - C)) > 1e-10:
@@ -1019,9 +1025,9 @@ def full_space_probe(chk):
     chk.add_traces(1, "OO_full_space")
 
 
-def part_oo(chk, rng):
-    cfgs = oo_configs(chk.quick)
-    runs = [r for r in (drive_oo(chk, c, rng) for c in cfgs) if r is not None]
+def part_oo(chk, rng, only=None):
+    cfgs = oo_configs(chk.quick) if only is None else only
+    runs = [r for r in (drive_oo(chk, c, cfg_rng(chk, c)) for c in cfgs) if r is not None]
     pairs = []
     for r in runs:
         pairs += oo_jobs(r)
@@ -1045,6 +1051,8 @@ def part_oo(chk, rng):
             wrong = float(sum(wn[i] * contract(efrs[0]["hterms"], efrs[1]["rec"]["e"][i]).real for i in range(len(wn))))
             if abs(wrong - efrs[1]["value"]) > 1e-7:
                 ctl += 1
+    if only is not None:
+        return
     if runs and not ctl:
         raise tlc.TLCError("negative control (OO): the unrotated Hamiltonian reproduces the rotated-orbital energies - the rotation is not observable")
     full_space_probe(chk)
@@ -1062,7 +1070,8 @@ def run(chk):
     part_v(chk, rng)
     part_oo(chk, rng)
     chk.cov["rule"] = ("A: every call history of length <= depth over {build, energy x 4 grid vectors, simulate x 3 probe scripts} per exact "
-                       "configuration, replayed on SA_VQESolver")
+                       "configuration, replayed on SA_VQESolver; V: molecular configurations x grid parameter vectors judged by X05Trace; "
+                       "OO: iterate() with scripted optimiser, every RDM-energy evaluation judged by X05Trace")
     chk.assumptions += ["E(theta) is a trigonometric polynomial: agreement on grid vectors (multiples of pi/4, several per configuration, "
                         "negative and > 2 pi) stands for all theta"]
 
@@ -1078,8 +1087,23 @@ def replay(chk, rec):
         for k, d in bad:
             print("  %s: %s" % (k, d))
         return not bad
-    print("unknown case")
-    return True
+    part = case.get("part")
+    if part == "V":
+        part_v(chk, None, only=[case["cfg"]])
+    elif part == "V-narrow-ref":
+        narrow_reference_probe(chk)
+    elif part == "OO":
+        part_oo(chk, None, only=[case["cfg"]])
+    elif part == "OO-full":
+        full_space_probe(chk)
+    else:
+        print("unknown case")
+        return True
+    for k, d, _ in chk.violations:
+        print("  %s: %s" % (k, str(d)[:400]))
+    for k, (cnt, what) in chk.known_hits.items():
+        print("  known finding reproduced: %s (%d)" % (k, cnt))
+    return not chk.violations and not chk.known_hits
 
 
 if __name__ == "__main__":
